@@ -75,6 +75,17 @@ def run_one(t):
     (d / "other.rs").write_text(other)
     shift = 1 if mode == "path" else 0
     fname = str((d / "lib.rs").resolve()) if mode == "path" else "stdin"
+    # other spellings of the same file in the selection: a `..` component, a symlinked directory
+    spell = extra[0] if extra and extra[0] in ("dotdot", "symlink") else "canon"
+    if spell != "canon":
+        extra = extra[1:]
+    if mode == "path" and spell == "dotdot":
+        (d / "sub").mkdir()
+        fname = str(d.resolve() / "sub" / ".." / "lib.rs")
+    if mode == "path" and spell == "symlink":
+        link = d.parent / (d.name + "-link")
+        link.symlink_to(d.resolve(), target_is_directory=True)
+        fname = str(link / "lib.rs")
     js = json.dumps([{"file": fname, "range": [a + shift, b + shift]} for a, b in sel])
     env = core.run_env({"HOME": str(d)})
     common = ["--unstable-features", "--config", "error_on_line_overflow=true", "--file-lines", js] \
@@ -104,6 +115,8 @@ def run_one(t):
                            text=True, timeout=60)
         out_body, untouched, stderr = r.stdout, True, r.stderr
     shutil.rmtree(d, ignore_errors=True)
+    if (d.parent / (d.name + "-link")).is_symlink():
+        (d.parent / (d.name + "-link")).unlink()
     items = []
     out_lines = out_body.split("\n")
 
@@ -183,6 +196,9 @@ def run(tier, seed, replay=None):
                 for k, sel in enumerate(sels):
                     mode = "path" if (k + gap) % 2 == 0 else "stdin"
                     jobs.append((len(jobs), base, rustfmt, src, spans, sel, mode, singles, []))
+                    if mode == "path" and k % 5 == 0:
+                        jobs.append((len(jobs), base, rustfmt, src, spans, sel, mode, singles,
+                                     ["dotdot" if k % 10 == 0 else "symlink"]))
                     if any(x in "UWVX" for x in seq) and k % 2 == 0:
                         jobs.append((len(jobs), base, rustfmt, src, spans, sel, mode, singles,
                                      ["--config", "group_imports=StdExternalCrate"]))
@@ -216,7 +232,7 @@ def run(tier, seed, replay=None):
             runsel = any(it in "UWVX" and any(a <= hi and lo <= b for (a, b) in g["sel"])
                          for (it, lo, hi) in job[4])
             v.violation(f"gate:{','.join(bad)}:runsel={runsel}:sel={g['sel']}:seq={[s[0] for s in job[4]]}:"
-                        f"mode={job[6]}:{core.fnv(job[3].encode()) % 1000}:{'g' if job[8] else ''}",
+                        f"mode={job[6]}:{core.fnv(job[3].encode()) % 1000}:{'-'.join(x for x in job[8] if not x.startswith('--')) if job[8] else ''}",
                         f"{bad} with --file-lines {g['sel']} ({job[6]}): items {g['items']} "
                         f"reports {g['reports']}", {"source": job[3], "sel": g["sel"], "mode": job[6],
                                                     "out": g["out"], "stderr": g["stderr"],
